@@ -1,5 +1,9 @@
 import Morlock.Props.C20Turochamp
 import Morlock.Proofs.TurochampFltInst
+import Morlock.Proofs.TurochampDeterministic
+import Morlock.Proofs.TurochampMirror2
+import Morlock.Proofs.TurochampMirror3
+import Morlock.Proofs.ChainExample
 /-!
 # C20 — TUROCHAMP totality without hypotheses
 
@@ -28,5 +32,195 @@ theorem evaluate_finite (w : World) (b : Nat) {t : Color} (hw : WF (w.cur b).pos
 
 example : ∃ v, evaluate exWorld 0 = some v ∧ 0 < v.den ∧ v.num.natAbs ≤ evalBound * v.den :=
   evaluate_finite exWorld 0 (t := .white) (by rw [exWorld_pos.1]; exact exPos_wf.1)
+
+/-! ## `Eval.Evaluate` is deterministic although `PositionPlay` is not (C18) -/
+
+/-- What `Sane pos c` says: at most 16 men of colour `c`; at most 15 rooks, knights, bishops and pawns; every pawn on
+ranks 2-7 (advanced at most 5 ranks). Holds for every position of a game of chess. -/
+theorem sane_iff (pos : Position) (c : Color) :
+    Sane pos c ↔ (toSquares (pos.pieces c .none)).length ≤ 16 ∧
+      (toSquares (middle pos c)).length + (toSquares (pos.pieces c .pawn)).length ≤ 15 ∧
+      ∀ sq ∈ toSquares (pos.pieces c .pawn), pawnRanks c sq ≤ 5 :=
+  ⟨fun h => ⟨h.men, h.officers, h.ranks⟩, fun h => ⟨h.1, h.2.1, h.2.2⟩⟩
+
+/-- **evaluate_closed_form.** On a well-formed position with at most 16 men a side and no pawn on the first or last rank,
+for ANY iteration orders `oS`, `oO` of the two mobility maps, `Eval.Evaluate` is `combineR` of the material ratio and
+the integer `10·(idealPlay(self) − idealPlay(opponent))` - the exact position-play difference in hundredths, which
+involves no floating point and no order. (`math.Round(float64(pp)*100)` always lands on that integer: the accumulated
+float32 error of `pp` is below `2^-9 + 2^-15 < 0.005`.) -/
+theorem evaluate_closed_form {pos : Position} {t : Color} (hw : WF pos t) (hW : Sane pos .white) (hB : Sane pos .black)
+    (cs co : Bool) (turn : Color) (oS oO : List (Nat × Nat) → List (Nat × Nat))
+    (hpS : ∀ l, (oS l).Perm l) (hpO : ∀ l, (oO l).Perm l) :
+    evaluateCoreOrd oS oO pos cs co turn =
+      (materialEvaluate pos turn).bind fun mat =>
+        combineR mat (10 * (idealPlay pos cs turn - idealPlay pos co turn.opp)) := by
+  have hS : ∀ c, Small pos c := fun c => by cases c <;> exact small_of_sane hw (by assumption)
+  exact evaluateCoreOrd_closed (hS turn) (hS turn.opp) cs co oS oO hpS hpO
+
+/-- **evaluate_order_independent (C18).** `Eval.Evaluate` returns the same float32 for every two pairs of iteration
+orders of the mobility maps. -/
+theorem evaluate_order_independent {pos : Position} {t : Color} (hw : WF pos t) (hW : Sane pos .white)
+    (hB : Sane pos .black) (cs co : Bool) (turn : Color) (oS oO oS' oO' : List (Nat × Nat) → List (Nat × Nat))
+    (hpS : ∀ l, (oS l).Perm l) (hpO : ∀ l, (oO l).Perm l) (hpS' : ∀ l, (oS' l).Perm l) (hpO' : ∀ l, (oO' l).Perm l) :
+    evaluateCoreOrd oS oO pos cs co turn = evaluateCoreOrd oS' oO' pos cs co turn := by
+  rw [evaluate_closed_form hw hW hB cs co turn oS oO hpS hpO, evaluate_closed_form hw hW hB cs co turn oS' oO' hpS' hpO']
+
+/-- The model's `evaluate` (insertion order) is the value for every order: on such a board the real `Eval.Evaluate`
+can return nothing else. -/
+theorem evaluate_any_order (w : World) (b : Nat) {t : Color} (hw : WF (w.cur b).pos t)
+    (hW : Sane (w.cur b).pos .white) (hB : Sane (w.cur b).pos .black) (oS oO : List (Nat × Nat) → List (Nat × Nat))
+    (hpS : ∀ l, (oS l).Perm l) (hpO : ∀ l, (oO l).Perm l) :
+    evaluateCoreOrd oS oO (w.cur b).pos (hasCastled w b (w.board b).turn) (hasCastled w b (w.board b).turn.opp)
+      (w.board b).turn = evaluate w b :=
+  evaluate_order_independent hw hW hB _ _ _ oS oO id id hpS hpO (fun _ => List.Perm.refl _) (fun _ => List.Perm.refl _)
+
+/-- The position after 1. e4, where `PositionPlay(White)` has two possible values (`positionPlay_order_dependent`), is
+well formed and sane: `Eval.Evaluate` has one value there. -/
+theorem afterE4_ok : WF afterE4 .black ∧ Sane afterE4 .white ∧ Sane afterE4 .black := by
+  refine ⟨?_, ⟨by decide +kernel, by decide +kernel, by decide +kernel⟩,
+    ⟨by decide +kernel, by decide +kernel, by decide +kernel⟩⟩
+  have hm : e2e4 ∈ startPos.pseudoLegalMoves .white := by decide +kernel
+  have hq : startPos.move e2e4 = some afterE4 := by decide +kernel
+  exact (Morlock.Proofs.Chain.wf_preserved Morlock.Proofs.Chain.startPos_wfplay hm hq).1
+
+example (oS oO : List (Nat × Nat) → List (Nat × Nat)) (hpS : ∀ l, (oS l).Perm l) (hpO : ∀ l, (oO l).Perm l) :
+    evaluateCoreOrd oS oO afterE4 false false .black = evaluateCoreOrd id id afterE4 false false .black :=
+  evaluate_order_independent afterE4_ok.1 afterE4_ok.2.1 afterE4_ok.2.2 false false .black oS oO id id hpS hpO
+    (fun _ => List.Perm.refl _) (fun _ => List.Perm.refl _)
+
+/-- ... and that value is `-0.42` for Black to move (material even; position play 10.2 against 14.4 → −4.2 → −420/1000) -/
+example : (evaluateCoreOrd id id afterE4 false false .black).bind bits32 = some 0xbed70a3d ∧
+    idealPlay afterE4 false .black = 102 ∧ idealPlay afterE4 false .white = 144 := by decide +kernel
+
+/-! ## `Eval.Evaluate` is colour-blind, up to `MirrorGap` -/
+
+/-- What `MirrorGap p q c` asks for (NOT proved): under the mirror the two flags of loop (1) and the exact mobility sum
+`Σ round(10·√n)` over the mobility map of colour `c` are unchanged. -/
+theorem mirrorGap_iff (p q : Position) (c : Color) :
+    MirrorGap p q c ↔ mayCheckMate q c.opp = mayCheckMate p c ∧ mayCastle q c.opp = mayCastle p c ∧
+      mob10 (mobility q c.opp) = mob10 (mobility p c) :=
+  ⟨fun h => ⟨h.mate, h.castle, h.mob⟩, fun h => ⟨h.1, h.2.1, h.2.2⟩⟩
+
+open Morlock.Proofs.Mirror in
+/-- **idealPlay_mirror.** The exact position-play value (tenths) of the other colour on the mirrored position, given
+`MirrorGap`: castling-right, has-castled, check terms, the defence sum, the king-safety term and the pawn sum are proved
+mirror invariant. -/
+theorem idealPlay_mirror {p q : Position} {t : Color} (hw : WF p t) {b : Proofs.Board} (hp : Rep p b)
+    (hq : Rep q (mirrorBoard b)) (habs : abs q t.opp = Spec.mirror (abs p t))
+    (hwk : (q.castling &&& wK != 0) = (p.castling &&& bK != 0))
+    (hwq : (q.castling &&& wQ != 0) = (p.castling &&& bQ != 0))
+    (hbk : (q.castling &&& bK != 0) = (p.castling &&& wK != 0))
+    (hbq : (q.castling &&& bQ != 0) = (p.castling &&& wQ != 0))
+    (c : Color) (castled : Bool) (hg : MirrorGap p q c) :
+    idealPlay q castled c.opp = idealPlay p castled c :=
+  Turochamp.idealPlay_mirror hw hp hq habs hwk hwq hbk hbq c castled hg
+
+open Morlock.Proofs.Mirror in
+/-- **evaluate_mirror (given `MirrorGap`).** `Eval.Evaluate` is colour-blind as a float32, for any iteration orders on
+the two boards. -/
+theorem evaluate_mirror {p q : Position} {t : Color} (hw : WF p t) (hwq : WF q t.opp) {b : Proofs.Board} (hp : Rep p b)
+    (hq : Rep q (mirrorBoard b)) (habs : abs q t.opp = Spec.mirror (abs p t))
+    (hwk : (q.castling &&& wK != 0) = (p.castling &&& bK != 0))
+    (hwq' : (q.castling &&& wQ != 0) = (p.castling &&& bQ != 0))
+    (hbk : (q.castling &&& bK != 0) = (p.castling &&& wK != 0))
+    (hbq : (q.castling &&& bQ != 0) = (p.castling &&& wQ != 0))
+    (hW : Sane p .white) (hB : Sane p .black) (hgap : ∀ c, MirrorGap p q c)
+    (cs co : Bool) (turn : Color) (oS oO oS' oO' : List (Nat × Nat) → List (Nat × Nat))
+    (hpS : ∀ l, (oS l).Perm l) (hpO : ∀ l, (oO l).Perm l) (hpS' : ∀ l, (oS' l).Perm l) (hpO' : ∀ l, (oO' l).Perm l) :
+    evaluateCoreOrd oS oO q cs co turn.opp = evaluateCoreOrd oS' oO' p cs co turn :=
+  evaluateCoreOrd_mirror hw hwq hp hq habs hwk hwq' hbk hbq hW hB hgap cs co turn oS oO oS' oO' hpS hpO hpS' hpO'
+
+/-! ## `MirrorGap` closed through `model_legalMoves_mirror` -/
+
+/-- **mobility_mirror.** The mobility maps of a position and of its colour-swapped mirror image are mirror images of
+each other up to the order of the entries (`WF` for the colour whose moves are counted). -/
+theorem mobility_mirror {p q : Position} {c : Color} (hp : WF p c) (hq : WF q c.opp)
+    (habs : abs q c.opp = Spec.mirror (abs p c)) :
+    (mobility q c.opp).Perm ((mobility p c).map fun e => (Spec.mirrorSq e.1, e.2)) :=
+  mobility_mirror_perm hp hq habs
+
+/-- the mobility map, exactly: `(k, n)` is an entry iff `n > 0` is the total weight (1 per move of an officer or the
+king other than castling, 2 per capture) of the legal moves from `k` -/
+theorem mobility_spec (pos : Position) (turn : Color) :
+    ((mobility pos turn).map (·.1)).Nodup ∧
+    ∀ k n, (k, n) ∈ mobility pos turn ↔ (wsum (pos.legalMoves turn) k = n ∧ 0 < n) :=
+  mobility_exact pos turn
+
+/-- **mirrorGap_closed.** For a colour `c` such that `p` is well formed with `c` to move and the opponent of `c` is not
+in check (`WFplay`; for the side NOT to move this forces: no en-passant target, side to move not in check), and likewise
+`q` for `c.opp`: the mate-threat flag, the castling flag and the exact mobility sum are colour-blind. -/
+theorem mirrorGap_closed {p q : Position} {c : Color} (hp : Chain.WFplay p c) (hq : Chain.WFplay q c.opp)
+    (habs : abs q c.opp = Spec.mirror (abs p c)) : MirrorGap p q c :=
+  Turochamp.mirrorGap_closed hp hq habs
+
+open Morlock.Proofs.Mirror in
+/-- **evaluate_mirror_quiet.** `Eval.Evaluate` is colour-blind as a float32 - for any iteration orders on both boards -
+on positions well formed for either colour to move with neither king in check (hence without en-passant target), at
+most 16 men a side and no pawn on the first or last rank. No further hypothesis. -/
+theorem evaluate_mirror_quiet {p q : Position} {b : Proofs.Board} (hp : Rep p b) (hq : Rep q (mirrorBoard b))
+    (hwp : ∀ c, Chain.WFplay p c) (hwq : ∀ c, Chain.WFplay q c)
+    (hwk : (q.castling &&& wK != 0) = (p.castling &&& bK != 0))
+    (hwq' : (q.castling &&& wQ != 0) = (p.castling &&& bQ != 0))
+    (hbk : (q.castling &&& bK != 0) = (p.castling &&& wK != 0))
+    (hbq : (q.castling &&& bQ != 0) = (p.castling &&& wQ != 0))
+    (hep0 : p.enpassant = 0 → q.enpassant = 0)
+    (hep1 : p.enpassant ≠ 0 → q.enpassant = Spec.mirrorSq p.enpassant ∧ q.enpassant ≠ 0)
+    (hW : Sane p .white) (hB : Sane p .black)
+    (cs co : Bool) (turn : Color) (oS oO oS' oO' : List (Nat × Nat) → List (Nat × Nat))
+    (hpS : ∀ l, (oS l).Perm l) (hpO : ∀ l, (oO l).Perm l) (hpS' : ∀ l, (oS' l).Perm l) (hpO' : ∀ l, (oO' l).Perm l) :
+    evaluateCoreOrd oS oO q cs co turn.opp = evaluateCoreOrd oS' oO' p cs co turn := by
+  have habs : ∀ c : Color, abs q c.opp = Spec.mirror (abs p c) :=
+    fun c => Mirror.abs_eq_mirror hp hq c hwk hwq' hbk hbq hep0 hep1
+  have hgap : ∀ c, MirrorGap p q c := fun c => Turochamp.mirrorGap_closed (hwp c) (hwq c.opp) (habs c)
+  exact evaluateCoreOrd_mirror (hwp turn).1 (hwq turn.opp).1 hp hq (habs turn) hwk hwq' hbk hbq hW hB hgap cs co turn
+    oS oO oS' oO' hpS hpO hpS' hpO'
+
+open Morlock.Proofs.Mirror in
+/-- The general case (en-passant target or a check on the board): colour-blind given `MirrorGap` for the side not to move
+only; the side to move is closed. -/
+theorem evaluate_mirror_mover {p q : Position} {t : Color} {b : Proofs.Board} (hp : Rep p b) (hq : Rep q (mirrorBoard b))
+    (hwp : Chain.WFplay p t) (hwq : Chain.WFplay q t.opp)
+    (hwk : (q.castling &&& wK != 0) = (p.castling &&& bK != 0))
+    (hwq' : (q.castling &&& wQ != 0) = (p.castling &&& bQ != 0))
+    (hbk : (q.castling &&& bK != 0) = (p.castling &&& wK != 0))
+    (hbq : (q.castling &&& bQ != 0) = (p.castling &&& wQ != 0))
+    (hep0 : p.enpassant = 0 → q.enpassant = 0)
+    (hep1 : p.enpassant ≠ 0 → q.enpassant = Spec.mirrorSq p.enpassant ∧ q.enpassant ≠ 0)
+    (hW : Sane p .white) (hB : Sane p .black) (hgapOpp : MirrorGap p q t.opp)
+    (cs co : Bool) (oS oO oS' oO' : List (Nat × Nat) → List (Nat × Nat))
+    (hpS : ∀ l, (oS l).Perm l) (hpO : ∀ l, (oO l).Perm l) (hpS' : ∀ l, (oS' l).Perm l) (hpO' : ∀ l, (oO' l).Perm l) :
+    evaluateCoreOrd oS oO q cs co t.opp = evaluateCoreOrd oS' oO' p cs co t := by
+  have habs := Mirror.abs_eq_mirror hp hq t hwk hwq' hbk hbq hep0 hep1
+  have hgap : ∀ c, MirrorGap p q c := fun c => by
+    cases t <;> cases c
+    all_goals first
+      | exact Turochamp.mirrorGap_closed hwp hwq habs
+      | exact hgapOpp
+  exact evaluateCoreOrd_mirror hwp.1 hwq.1 hp hq habs hwk hwq' hbk hbq hW hB hgap cs co t oS oO oS' oO' hpS hpO hpS' hpO'
+
+open Morlock.Proofs.Mirror in
+/-- The initial position is its own colour-swapped mirror image and meets every hypothesis of `evaluate_mirror_quiet`:
+White's evaluation of it equals Black's, for all iteration orders. -/
+example (oS oO oS' oO' : List (Nat × Nat) → List (Nat × Nat))
+    (hpS : ∀ l, (oS l).Perm l) (hpO : ∀ l, (oO l).Perm l) (hpS' : ∀ l, (oS' l).Perm l) (hpO' : ∀ l, (oO' l).Perm l) :
+    evaluateCoreOrd oS oO startPos false false .black = evaluateCoreOrd oS' oO' startPos false false .white := by
+  have hrep : Rep startPos startPos.square := startPos_wf.1
+  have hself : mirrorBoard startPos.square = startPos.square := by
+    funext sq
+    by_cases hsq : sq < 64
+    · have : ∀ s, s < 64 → mirrorBoard startPos.square s = startPos.square s := by decide +kernel
+      exact this sq hsq
+    · have h64 : 64 ≤ sq := by omega
+      unfold mirrorBoard
+      rw [Spec.mirrorSq_of_ge h64, hrep.out sq h64]
+  have hrep' : Rep startPos (mirrorBoard startPos.square) := by rw [hself]; exact hrep
+  have hwf : ∀ c, Chain.WFplay startPos c := fun c => by
+    cases c
+    · exact Chain.startPos_wfplay
+    · exact ⟨⟨hrep, by decide +kernel⟩, by decide +kernel⟩
+  exact evaluate_mirror_quiet hrep hrep' hwf hwf (by decide +kernel) (by decide +kernel) (by decide +kernel)
+    (by decide +kernel) (fun _ => by decide +kernel) (fun h => absurd (by decide +kernel) h)
+    ⟨by decide +kernel, by decide +kernel, by decide +kernel⟩ ⟨by decide +kernel, by decide +kernel, by decide +kernel⟩
+    false false .white oS oO oS' oO' hpS hpO hpS' hpO'
 
 end Morlock.Props.C20Turochamp
